@@ -2,7 +2,7 @@
    Only statements closed by [exact]; the proofs live in Proofs/C13_*.v and are about
    Gen/GenPtCorr.v, which is regenerated from the Python source on every run. *)
 From Coq Require Import List ZArith Ring_theory Reals RealField QArith Qcanon.
-From SX Require Import Lib.KRing Gen.GenPtCorr Model.PtCorr Proofs.C13_Num Proofs.C13_Kappa Proofs.C13_Model.
+From SX Require Import Lib.KRing Lib.Tuples Gen.GenPtCorr Model.PtCorr Proofs.C13_Num Proofs.C13_Kappa Proofs.C13_Model.
 Import ListNotations.
 
 (* any commutative ring K: per event, order index c (k = c+1 <= 8), numerator and denominator are
@@ -82,3 +82,16 @@ Theorem C13_example :
   = Some (492, 108)%Z.
 Proof. exact (eq_refl _). Qed.
 Print Assumptions C13_example.
+
+(* what "dsum" is: the sum over all ordered k-tuples of distinct positions of the product of the entries,
+   and there are M(M-1)...(M-k+1) such tuples, each with k entries *)
+Theorem C13_dsum_is_tuple_sum :
+  forall K k0 k1 kadd kmul ksub kopp, ring_theory k0 k1 kadd kmul ksub kopp (@eq K) ->
+  forall k l, dsum k0 k1 kadd kmul k l = ksum k0 kadd (map (kprod k1 kmul) (sel k l)).
+Proof. exact dsum_is_tuple_sum. Qed.
+Print Assumptions C13_dsum_is_tuple_sum.
+
+Theorem C13_tuple_count :
+  forall A k (l : list A), length (sel k l) = falling (length l) k /\ (forall t, In t (sel k l) -> length t = k).
+Proof. exact (fun A k l => conj (sel_count k l) (sel_length k l)). Qed.
+Print Assumptions C13_tuple_count.
